@@ -141,6 +141,11 @@ def run(ck):
     from props import C13
 
     common.import_results(ck, C13, "2", "dispatch_idles", "2")
+    # adapt_io() from inside a callback that fails must leave the registrations of the other sources alone (C15.4, C16.2)
+    from props import C15 as _C15, C16 as _C16
+
+    common.import_results(ck, _C15, "4", "IoLoopInner", "2")
+    common.import_results(ck, _C16, "2", None, "2")
 
     # ---- clause 3: nobody returns holding a guard; no nested incompatible borrow -----------------------
     nret = 0
